@@ -177,6 +177,7 @@ func c15(c *core.Ctx) {
 			c.Distinct(uint64(i) | 1<<50)
 		})
 	}
+	c15Targeted(c)
 	clientPairwise(c, c15Oracles)
 	clientStress(c, c15Oracles, c.N(200, 8000), func(i int64, r *gen.Rand) stressCfg {
 		return stressCfg{
